@@ -74,6 +74,12 @@ def faults_for(op, rid, rng, quick):
     stale = bytes([0x55, 0x33, 0x56, 0x43, 0, 0, exp_kind & 255, exp_kind >> 8, real & 255, real >> 8,
                    (rid - 1) & 255, ((rid - 1) >> 8) & 255]) + bytes(real)
     out.append(("stale-ack", [5, -1, 1, 2, xhex(stale)], "err"))
+    # a device that keeps repeating well-formed acknowledges of EARLIER requests (ids 1, 2, 100 behind): an error after
+    # a bounded number of receives - never more receives than the configured retry count for one command
+    for back in (1, 2, 100):
+        old = bytes([0x55, 0x33, 0x56, 0x43, 0, 0, exp_kind & 255, exp_kind >> 8, real & 255, real >> 8,
+                     (rid - back) & 255, ((rid - back) >> 8) & 255]) + bytes(real)
+        out.append(("stale-ack-%d-behind-x12" % back, [5, -1, 12] + [2, xhex(old)] * 12, "err"))
     for p in range(0, 6):
         out.append(("pending-x%d" % p, [5, -1, p + 1] + [0, 1] * p + [1, 0], "ok" if p < 3 else "err"))
     out.append(("pending-forever", [5, -1, 8] + [0, 1] * 8, "err"))
@@ -258,8 +264,8 @@ def gen_cases(ck):
         w, wt, optoks = scenario(a1, k1[1], ops, second=(a2, k2[1]))
         add("double tx%d/%s tx%d/%s" % (a1, k1[0], a2, k2[0]), w, wt, optoks, [("any",)] * 4)
     # degenerate advertised limits
-    for mc in (0, 1, 11, 12, 13, 19, 20, 21, 23, 24, 25, 0xFFFFFFFF):
-        for ma in (0, 1, 11, 12, 13, 15, 16, 17, 0xFFFFFFFF):
+    for mc in (0, 1, 11, 12, 13, 19, 20, 21, 23, 24, 25, 65555, 65556, 65557, 0x20014, 0xFFFF0014, 0xFFFFFFFF):
+        for ma in (0, 1, 11, 12, 13, 15, 16, 17, 65547, 65548, 65549, 0x2000B, 0x2000C, 0x2000D, 0xFFFF000C, 0xFFFFFFFF):
             ops2 = [dict(k="r", a=DATA + 3, n=9), dict(k="w", a=DATA + 30, n=7, seed=1), dict(k="r", a=DATA, n=0)]
             w, wt, optoks = scenario(None, None, ops2, mc=mc, ma=ma)
             r_ok = mc >= 24 and ma > 12
